@@ -337,3 +337,31 @@ Definition cur_life (tr : list out) : list out :=
    range); nothing else is demanded of it here. *)
 Definition propagate_ok (fetch_ok returned_err : bool) : bool := fetch_ok || returned_err.
 Definition handler_returns_err (fetch_ok : bool) : bool := negb fetch_ok.
+
+(* ---- handlers ask the node for the range they were given (third part of the correspondence) --- *)
+
+(* One HandleEvents(s, e) call of a repository event handler over a node that records the
+   arguments of every read: [asked] = the (from, to) bounds of the range reads it made, as given (a
+   read with from > to asks for nothing: sygma-core's connection loops `for i := from; i <= to`,
+   eth_getLogs returns nothing; Bitcoin: (n, n) for a block whose transactions were fetched with
+   the hash the node returned for n); [fired] = some read of that call could not be served by the
+   node (several fallible reads may belong to one call: one per retry event, one per block);
+   [err] = the handler returned an error. *)
+Fixpoint zrange (s : Z) (n : nat) : list Z :=
+  match n with O => [] | S n' => s :: zrange (s + 1) n' end.
+
+Definition asked_b (asked : list (Z * Z)) (b : Z) : bool :=
+  existsb (fun r => (fst r <=? b) && (b <=? snd r)) asked.
+
+(* every block of [s, e] lies inside some range the node was asked for *)
+Definition covers (s e : Z) (asked : list (Z * Z)) : bool :=
+  forallb (asked_b asked) (zrange s (Z.to_nat (e - s + 1))).
+
+(* The specification of one call: a read that failed is reported (whichever of the call's reads it
+   was, whatever the later ones did), and a call that reports success has asked the node for every
+   block of its range. *)
+Definition reads_ok (s e : Z) (fired : bool) (asked : list (Z * Z)) (err : bool) : bool :=
+  propagate_ok (negb fired) err && (err || covers s e asked).
+
+(* the handlers as they are: one read of exactly the range; an error iff a read failed *)
+Definition handler_asks (s e : Z) : list (Z * Z) := [(s, e)].
